@@ -17,6 +17,13 @@ def _params():
             for to in (1.0, 2.0, 3.0):
                 for comp in (-1.0, 0.0, +1.0, NEVER):
                     out.append(dict(jobs=(a, (sub, to, comp)), api="executor", user_cancel=False))
+    # a future that is RUNNING at its deadline (its one cancel attempt fails), with later activity
+    for jobs in (((0.0, 1.0, "running"), (2.0, 1.0, NEVER)), ((0.0, 1.0, "running"), (0.5, 2.0, NEVER), (3.0, 0.5, NEVER)),
+                 ((0.0, 2.0, "running"), (0.0, 1.0, "running"))):
+        out.append(dict(jobs=jobs, api="executor", user_cancel=False))
+    # a delegate whose submit() takes one virtual second: the deadline counts from creation
+    for jobs in (((0.0, 2.0, NEVER),), ((0.0, 1.0, NEVER), (0.0, 2.0, NEVER))):
+        out.append(dict(jobs=jobs, api="executor", user_cancel=False, submit_delay=1.0))
     for jobs in (((0.0, 3.0, NEVER), (0.5, 1.0, NEVER), (1.0, 1.0, NEVER)),
                  ((0.0, 2.0, NEVER), (0.0, 2.0, NEVER), (1.0, 0.5, -0.25)),
                  ((0.0, 1.0, 0.0), (0.5, 2.0, NEVER), (0.5, 1.0, +1.0))):
@@ -31,6 +38,7 @@ def _params():
 
 def body(mc, p):
     base = ManualExecutor(mc, mode="hold")
+    base.submit_delay = p.get("submit_delay", 0.0)
     jobs = p["jobs"]
     default = 2.0
     ex = TimeoutExecutor(base, default)
@@ -54,7 +62,6 @@ def body(mc, p):
         def run():
             if sub:
                 mc.sleep(sub)
-            mc.emit("submit", j=j, deadline=mc.clock + (default if p["api"] == "default" else to))
             def fn_j():
                 return None
             if p["api"] == "executor":
@@ -65,11 +72,18 @@ def body(mc, p):
                 inp = ProbeFuture(mc, "in%d" % j)
                 inputs[j] = inp
                 f = F.f_timeout(inp, to)
+            # the deadline counts from the creation of the future (submit returning)
+            mc.emit("submit", j=j, deadline=mc.clock + (default if p["api"] == "default" else to))
             wrap(j, f)
             fs[j] = f
+            if comp == "running":
+                idx = [k for k, it in enumerate(base.items) if it.fn is fn_j]
+                base.items[idx[0]].future.set_running_or_notify_cancel()
+                base.items[idx[0]].state = "running"
+                return
             # complete the underlying work at deadline + comp
             if comp is not NEVER:
-                deadline = sub + (default if p["api"] == "default" else to)
+                deadline = mc.clock + (default if p["api"] == "default" else to)
                 mc.sleep(max(deadline + comp - mc.clock, 0.0))
                 mc.emit("complete", j=j)
                 if p["api"] == "f_timeout":
